@@ -251,6 +251,21 @@ func comparePages(aPath, bPath string) (string, error) {
 	return fmt.Sprintf("sizes %d vs %d bytes, page size %d, differing pages: %s", len(a), len(b), ps, strings.Join(diff, ",")), nil
 }
 
+func maxL0TXID(ctx context.Context, c *file.ReplicaClient) (ltx.TXID, error) {
+	itr, err := c.LTXFiles(ctx, 0, 0, false)
+	if err != nil {
+		return 0, err
+	}
+	defer itr.Close()
+	var max ltx.TXID
+	for itr.Next() {
+		if m := itr.Item().MaxTXID; m > max {
+			max = m
+		}
+	}
+	return max, itr.Err()
+}
+
 // partA restores the replica and compares it with the source database
 // (logical rows + integrity_check + page-for-page against a checkpointed copy
 // of the source). Returns "" when equal.
@@ -259,6 +274,14 @@ func (h *harness) partA(ctx context.Context, i int, db *litestream.DB, attempt i
 	restored := filepath.Join(h.dir, "restore-"+tag+".sqlite")
 	opt := litestream.NewRestoreOptions()
 	opt.OutputPath = restored
+	// Restore to an explicit TXID (the replica's newest L0 file now): with monitors running litestream keeps
+	// producing transactions of its own (the _litestream_seq bump of every time-based checkpoint), so "latest"
+	// is a moving target and part A2 must compare the L0 chain at the SAME TXID.
+	h.lastTXID[i] = 0
+	if max, err := maxL0TXID(ctx, file.NewReplicaClient(h.rdirs[i])); err == nil && max > 0 {
+		opt.TXID = max
+		h.lastTXID[i] = max
+	}
 	if err, _ := h.call(-1, "final:Restore", func() error { return db.Replica.Restore(ctx, opt) }); err != nil {
 		return "restore failed", h.scrub(err.Error())
 	}
@@ -449,26 +472,17 @@ func (h *harness) partB(ctx context.Context, i int) {
 		_ = os.Remove(outII)
 	}
 
-	// A2: the L0 chain 1..N alone (N = last replicated TXID) must restore to
+	// A2: the L0 chain 1..N alone (N = the TXID part A restored to) must restore to
 	// the same image as the planner's restore of part A (which equalled the
 	// source). Skipped when retention removed L0 files or part A failed.
 	if h.lastRestore[i] == "" {
 		return
 	}
-	var maxL0 ltx.TXID
-	if err, _ := h.call(-1, "final:LTXFiles", func() error {
-		itr, err := client.LTXFiles(ctx, 0, 0, false)
-		if err != nil {
-			return err
-		}
-		defer itr.Close()
-		for itr.Next() {
-			if m := itr.Item().MaxTXID; m > maxL0 {
-				maxL0 = m
-			}
-		}
-		return itr.Err()
-	}); err != nil || maxL0 == 0 {
+	// the TXID part A restored to (NOT the newest file now: the monitors may have checkpointed and bumped
+	// _litestream_seq since then, which is a transaction of its own)
+	maxL0 := h.lastTXID[i]
+	if maxL0 == 0 {
+		h.count("l0chain-skipped")
 		return
 	}
 	for l0ok && have < maxL0 {
@@ -490,7 +504,7 @@ func (h *harness) partB(ctx context.Context, i int) {
 		}
 		have = t
 	}
-	if !l0ok || have != maxL0 {
+	if !l0ok || have < maxL0 {
 		h.count("l0chain-skipped")
 		return
 	}
